@@ -13,7 +13,7 @@ import (
 
 // loadContracts reads the contract corpus from /repo (verif_contracts.go files).
 func loadContracts(c *Ctx) *vc.Contracts {
-	cs, files, err := vc.LoadContracts("/repo")
+	cs, files, err := vc.LoadContracts(repoDir)
 	if err != nil {
 		fmt.Println("ERROR: contract corpus:", err)
 		os.Exit(2)
